@@ -32,6 +32,7 @@ type outcome struct {
 	err      error
 	ret      *ds.VMValue
 	rest     string
+	matched  string
 	vm       *ds.Context
 }
 
@@ -44,6 +45,10 @@ func runProgram(src string) outcome {
 	if o.panicked == nil && o.err == nil {
 		o.ret = vm.Ret
 		o.rest = vm.RestInput
+		o.matched = vm.Matched
+		// the result is the host's to keep: a later evaluation on the same VM (another literal, another template) does not
+		// change the value it was handed
+		_ = rt.Guard(func() { _ = vm.Run("'\x02later' + `{7}{'x'}`") })
 	}
 	return o
 }
@@ -219,8 +224,8 @@ func checkLit(c LitCase, s *rt.Section) *rt.Failure {
 	if c.Ctx == ctxRest || c.Ctx == ctxAssignRest {
 		// the given-back text is exactly the tail, and the consumed text is the program as written
 		wantMatched := strings.TrimSuffix(src, restTail)
-		if o.vm.Matched != wantMatched || o.rest != restTail {
-			return s.NewFailure("literal", "lit:matched/"+style, c, fmt.Sprintf("program %q: Matched=%q RestInput=%q", src, o.vm.Matched, o.rest),
+		if o.matched != wantMatched || o.rest != restTail {
+			return s.NewFailure("literal", "lit:matched/"+style, c, fmt.Sprintf("program %q: Matched=%q RestInput=%q", src, o.matched, o.rest),
 				fmt.Sprintf("Matched=%q RestInput=%q", wantMatched, restTail))
 		}
 	} else if strings.TrimSpace(o.rest) != "" {
